@@ -2962,8 +2962,13 @@ class SFTPClientHandler(SFTPHandler):
         self.logger.debug1('Sending write for %s at offset %d in handle %s',
                            plural(len(data), 'byte'), offset, handle.hex())
 
-        return cast(int, await self._make_request(
-            FXP_WRITE, String(handle), UInt64(offset), String(data)))
+        try:
+            return cast(int, await self._make_request(
+                FXP_WRITE, String(handle), UInt64(offset), String(data)))
+        except SFTPEOFError:
+            # EOF is only meaningful on reads, so don't let it be taken
+            # for the end of the data being written
+            raise SFTPBadMessage('Unexpected EOF response to write') from None
 
     async def stat(self, path: bytes, flags: int, *,
                    follow_symlinks: bool = True) -> SFTPAttrs:
